@@ -631,6 +631,7 @@ def judge (ops outs : List String) : String :=
   let rec go (js : JSt) (k : Nat) : List String → List String → String
     | op :: ops, out :: outs =>
       if out.startsWith "panic" then s!"violation panic op={k} {(toks op).headD ""}" else
+      if out = "bad-op" then go js (k + 1) ops outs else      -- op not applicable in this state (shrunk replays)
       match judgeStep js k op out with
       | .error v => v
       | .ok js' => go js' (k + 1) ops outs
